@@ -1,19 +1,20 @@
 // C03: restart reproduces exactly the acknowledged state (AOF replay
 // equivalence). Sub-checks:
-//   Restart   histories of every data-modifying command kind (keyspace, hooks,
-//             scripts, expirations) over several connections; quiescent
-//             restart (directory snapshot after the last ack, and clean stop)
-//             must give dump(before) == dump(after); the recovered log
-//             replayed through the reference model must give the same
-//             keyspace.
-//   LogTable  for every command label of the dispatcher x generated arguments:
-//             if the command changed the visible dataset then the log grew and
-//             a restart reproduces the new dataset (completeness of the
-//             logging table, incl. script-wrapped forms).
-//   Crash     one writer pipelines a generated sequence; the directory is
-//             snapshotted (or the subprocess SIGKILLed) at a generated moment;
-//             the recovered state must equal the model after some prefix of
-//             the sequence no shorter than the acknowledgements received.
+//
+//	Restart   histories of every data-modifying command kind (keyspace, hooks,
+//	          scripts, expirations) over several connections; quiescent
+//	          restart (directory snapshot after the last ack, and clean stop)
+//	          must give dump(before) == dump(after); the recovered log
+//	          replayed through the reference model must give the same
+//	          keyspace.
+//	LogTable  for every command label of the dispatcher x generated arguments:
+//	          if the command changed the visible dataset then the log grew and
+//	          a restart reproduces the new dataset (completeness of the
+//	          logging table, incl. script-wrapped forms).
+//	Crash     one writer pipelines a generated sequence; the directory is
+//	          snapshotted (or the subprocess SIGKILLed) at a generated moment;
+//	          the recovered state must equal the model after some prefix of
+//	          the sequence no shorter than the acknowledgements received.
 package c03
 
 import (
@@ -95,6 +96,42 @@ func scriptWrap(evalCmd string, inner []string) []string {
 	return append([]string{evalCmd, b.String(), "0"}, inner...)
 }
 
+// scriptMulti builds a script that performs several commands through
+// tile38.call and then ends the way tail says: "" (returns normally), "error"
+// (raises after the calls), "badcall" (a refused tile38.call after the calls),
+// "spin" (never ends: only with a TIMEOUT prefix). Writes made before a failure
+// stay applied, so they must survive a restart like any other write.
+func scriptMulti(evalCmd string, inners [][]string, tail string) []string {
+	var b strings.Builder
+	var args []string
+	for _, inner := range inners {
+		b.WriteString("tile38.call(")
+		for i := range inner {
+			if i > 0 {
+				b.WriteByte(',')
+			}
+			fmt.Fprintf(&b, "ARGV[%d]", len(args)+i+1)
+		}
+		b.WriteString(") ")
+		args = append(args, inner...)
+	}
+	switch tail {
+	case "error":
+		b.WriteString("error('boom')")
+	case "badcall":
+		b.WriteString("return tile38.call('nosuchcommand', 'x')")
+	case "spin":
+		b.WriteString("while true do end")
+	default:
+		b.WriteString("return 1")
+	}
+	cmd := append([]string{evalCmd, b.String(), "0"}, args...)
+	if tail == "spin" {
+		cmd = append([]string{"TIMEOUT", "0.05"}, cmd...)
+	}
+	return cmd
+}
+
 func nonEmptyArgs(cmd []string) bool {
 	for _, a := range cmd {
 		if a == "" {
@@ -117,6 +154,22 @@ func histCmd(t *rapid.T, ns gen.Names) []string {
 		}
 		ev := rapid.SampledFrom([]string{"EVAL", "EVALNA"}).Draw(t, "evalkind")
 		return scriptWrap(ev, inner)
+	case 3:
+		// several calls in one script, ending normally, in an error, in a refused call or in a timeout
+		var inners [][]string
+		for i, n := 0, rapid.IntRange(1, 3).Draw(t, "ncalls"); i < n; i++ {
+			inner := gen.KeyspaceCmd(t, ns)
+			if !nonEmptyArgs(inner) {
+				continue
+			}
+			inners = append(inners, inner)
+		}
+		if len(inners) == 0 {
+			return gen.KeyspaceCmd(t, ns)
+		}
+		ev := rapid.SampledFrom([]string{"EVAL", "EVAL", "EVALNA"}).Draw(t, "evalkind")
+		tail := rapid.SampledFrom([]string{"", "error", "error", "badcall", "spin"}).Draw(t, "tail")
+		return scriptMulti(ev, inners, tail)
 	}
 	return gen.KeyspaceCmd(t, ns)
 }
@@ -181,6 +234,9 @@ func runHistory(t ev.Failer, c *ev.Collector, h history) (labels map[string]bool
 			fail("c03-harness", fmt.Sprintf("transport error on %s: %v", t38.CmdString(cmd), err))
 		}
 		n := strings.ToLower(cmd[0])
+		if v.IsErr() && (n == "eval" || n == "evalna" || n == "timeout") && strings.Contains(strings.Join(cmd[:4], " "), "tile38.call(ARGV") {
+			labels["script-failed-after-calls"] = true
+		}
 		if !v.IsErr() {
 			switch {
 			case n == "eval" || n == "evalna":
